@@ -1022,6 +1022,53 @@ func c15Run(t c15Task) (res c15Result) {
 				res.Cases += 2
 			}
 		}
+	case "repost":
+		// C02 over HTTP: a document posted a second time is a sequence of writes identical to the current versions and
+		// adds nothing to the feed; a token taken at the end stays at the end
+		docs := c15Docs()
+		for i := t.From; i < t.To && i < len(docs); i++ {
+			text := docText(docs[i], "")
+			ds := w.newDataset()
+			label := fmt.Sprintf("doc%d", i)
+			if code, _, pn := w.request(http.MethodPost, "/datasets/"+ds+"/entities", text); pn != "" || code != 200 {
+				continue // judged by C15
+			}
+			before, err := w.feed(ds)
+			if err != nil {
+				continue
+			}
+			// the last version per id is current: the document's elements that equal it are re-sent
+			last := map[string]int{}
+			for j, e := range docs[i] {
+				var el struct {
+					ID string `json:"id"`
+				}
+				_ = json.Unmarshal([]byte(e), &el)
+				last[el.ID] = j
+			}
+			var again []string
+			for j, e := range docs[i] {
+				var el struct {
+					ID string `json:"id"`
+				}
+				_ = json.Unmarshal([]byte(e), &el)
+				if last[el.ID] == j {
+					again = append(again, e)
+				}
+			}
+			if code, _, pn := w.request(http.MethodPost, "/datasets/"+ds+"/entities", docText(again, "")); pn != "" || code != 200 {
+				res.fail("C02:http-repost-rejected|"+label, fmt.Sprintf("re-posting the current versions of %q answered %d %s", short(text), code, pn), text)
+				continue
+			}
+			after, err := w.feed(ds)
+			if err != nil {
+				continue
+			}
+			res.Cases++
+			if len(after) != len(before) {
+				res.fail("C02:http-repost-adds-changes|"+label, fmt.Sprintf("POST %q, then the current version of every entity again: the change feed grows from %d to %d entries although every write equals the current version", short(text), len(before), len(after)), text)
+			}
+		}
 	case "txn":
 		// transaction round trip: documents built from the same entity box, two datasets
 		docs := c15Docs()
